@@ -137,6 +137,7 @@ func VerifC05_E2E(ver, mt, c1, c2, where, nFRM int) {
 		verifAssert(ok, "receiver: FRMPayload is a byte payload")
 		verifAssert(verifBytesEq(b, app), "receiver: application payload recovered")
 	}
+	verifNoGlobalWritesExcept("") // C10: no hidden package-level state is written
 	verifReach("done")
 }
 
